@@ -102,6 +102,8 @@ type Unit struct {
 	callAssertSeen map[int]bool
 	sentinels map[string]bool
 	plainErrs []string
+	panicSnaps []*State
+	panicSites []string
 	usesErrIs bool
 }
 
@@ -428,7 +430,12 @@ func (u *Unit) heapDefault(st *State, name, valSort string) string {
 	if ep == "" {
 		ep = "0"
 	}
-	return u.d.constant(name+"@"+ep, arrSort(SInt, u.eng.heapSorts[name]))
+	c := u.d.constant(name+"@"+ep, arrSort(SInt, u.eng.heapSorts[name]))
+	if ep == "0" && u.eng.heapIsRef[name] {
+		// well-formed entry heap: every reference stored in an object field points to an existing object
+		u.d.axiom(fmt.Sprintf("(forall ((r Int)) (! (<= (select %s r) |wm@0|) :pattern ((select %s r))))", c, c))
+	}
+	return c
 }
 
 func (u *Unit) heapGet(st *State, name, valSort string) string {
@@ -517,6 +524,9 @@ func (u *Unit) loadField(st *State, ref string, t types.Type, name string) *Val 
 	}
 	if kindOf(ft) == kUnit {
 		return &Val{T: ft, S: "0"}
+	}
+	if kindOf(ft) == kRef {
+		u.eng.heapIsRef[heapName(t, name)] = true
 	}
 	h := u.heapGet(st, heapName(t, name), sortOf(ft))
 	v := u.fromScalar(st, app("select", h, ref), ft)
@@ -674,6 +684,7 @@ type Engine struct {
 	contractFiles []string
 	pkgVarCache map[*types.Var][]constant.Value
 	pkgVarDone map[*types.Var]bool
+	heapIsRef map[string]bool
 }
 
 func (e *Engine) indexFuncs() {
